@@ -31,6 +31,8 @@ def plans(draw, h2):
             p["framing"] = "cl"
         p["conn_close"] = draw(st.sampled_from([False, False, False, True]))
         p["interim"] = draw(st.sampled_from([[], [], [], [100], [103, 103]])) if p["version"] == "1.1" else []
+        if draw(st.integers(0, 5)) == 0:
+            p["respond_at"] = "head"  # a server that answers as soon as it has the request head (e.g. rejects an upload early) and goes on reading
         if p["framing"] == "close" or p["conn_close"] or p["version"] == "1.0":
             # over TLS the server may end the stream with close_notify alone and keep the TCP connection until the client answers
             p["close_notify_only"] = draw(st.booleans())
@@ -354,6 +356,8 @@ def judge(sc, run, world, callers, mon, lost, q_stats):
         leaf = p.peer.leaf()
         for msg in getattr(leaf, "wire_violations", []):
             v1.append(V("C01", "reused-unfinished-connection", f"pipe {p.id} ({kind}): {msg}", **base))
+        for msg in getattr(leaf, "parse_errors", []):
+            v1.append(V("C01", "wire-desync", f"pipe {p.id} ({kind}): the bytes written on this connection do not parse as a sequence of requests: {msg}", **base))
         exs = leaf.all_exchanges() if hasattr(leaf, "all_exchanges") else []
         if len(exs) >= 2:
             if getattr(leaf, "h2", None) is not None:
